@@ -64,6 +64,26 @@ Theorem C16_inv_reachable_partial (app : bool) (h : list op) :
 Proof. exact (inv_reachable app h). Qed.
 Print Assumptions C16_inv_reachable_partial.
 
+(* ---- with the named axes: Full c = Inv c + distinct array keys + distinct names inside each
+   stored layout + every named axis of every stored array has the size recorded in .axes.
+   Extra precondition [names_run]: explicit layouts do not repeat an axis name. *)
+Theorem C16_full_step (c : coll) (o : bop) (c' : coll) (p : bool) (r : option nd) :
+  bop_ok c o -> bop_names o -> Full c -> bstep c o = Ok (c', p, r) -> Full c'.
+Proof. exact (full_bstep c o c' p r). Qed.
+Print Assumptions C16_full_step.
+
+Theorem C16_full_reachable_partial (app : bool) (h : list op) :
+  ok_run (start app) h -> names_run h -> FullS (run (start app) h).
+Proof. exact (full_reachable app h). Qed.
+Print Assumptions C16_full_reachable_partial.
+
+(* named axes have one size across all arrays (and inside one array) *)
+Theorem C16_named_axes_single (c : coll) nm1 e1 nm2 e2 ax z1 z2 :
+  AxesOk c -> In (nm1, e1) (c_arrays c) -> In (nm2, e2) (c_arrays c) ->
+  In (ax, z1) (entry_axes e1) -> In (ax, z2) (entry_axes e2) -> z1 = z2.
+Proof. exact (named_axes_single c nm1 e1 nm2 e2 ax z1 z2). Qed.
+Print Assumptions C16_named_axes_single.
+
 (* under the invariant every stored array is returned by get: own sizes of the items before the
    ellipsis, the collection's common shape in the broadcast axes, own sizes of the items after it *)
 Theorem C16_inv_get (c : coll) (nm : nat) (e : entry) :
@@ -101,6 +121,8 @@ Example C16_nonvacuous :
   ok_run (start true) demo_history /\ all_ok (start true) demo_history = true /\
   gets_ok (main (run (start true) demo_history)) = true.
 Proof. exact demo_ok. Qed.
+Example C16_nonvacuous_names : names_run demo_history.
+Proof. exact demo_names. Qed.
 
 (* clauses the faithful model still refutes (known findings; each replayed on the implementation
    by props/c16.py) *)
